@@ -452,9 +452,46 @@ def run(s):
             shutil.rmtree(tmp, ignore_errors=True)
         if fails or fails_g:
             break
+    # ---------- a LARGE table (more than a thousand temperatures, in the thorough tier also pressures): the table entry itself at grid nodes, also at the last rows and
+    # columns and at nodes a thinned grid would skip; the entries carry a node-wise rough component, so only the tabulated numbers themselves can be returned there
+    if not fails and not fails_g:
+        from cij.io.traditional.qha_output import save_x_tp
+        for nTb, nPb in ((1204, 9),) + (((9, 1362), (2407, 6)) if s.tier == "thorough" else ()):
+            tmpb = tempfile.mkdtemp(prefix="c19b_")
+            cwd = os.getcwd()
+            try:
+                Tb, Pb = numpy.linspace(0.0, 3.0 * (nTb - 1), nTb), numpy.linspace(0.0, 0.5 * (nPb - 1), nPb)
+                Tb_ext = numpy.concatenate([Tb, Tb[-1] + 3.0 * numpy.arange(1, 5)])          # the calculator's tables carry four extra temperature rows, which load_data drops
+                arr = smooth(1)(Tb_ext[:, None], Pb[None, :]) + 1e-2 * numpy.cos(7919.0 * numpy.arange(nTb + 4)[:, None] + 104729.0 * numpy.arange(nPb)[None, :])
+                save_x_tp(arr, Tb_ext, Pb, Pb, os.path.join(tmpb, FILES["c12s"]))
+                ii = sorted(set([0, 1, 2, nTb // 2, nTb // 2 + 1, nTb - 3, nTb - 2, nTb - 1] + [int(x) for x in numpy.random.RandomState(s.seed).randint(0, nTb, 6)]))
+                jj = sorted(set([0, 1, nPb // 2, nPb - 2, nPb - 1] + [int(x) for x in numpy.random.RandomState(s.seed + 1).randint(0, nPb, 4)]))
+                pts = [(i, j) for i in ii for j in jj]
+                os.chdir(tmpb)
+                pandas.DataFrame({"P": [Pb[j] for _, j in pts], "T": [Tb[i] for i, _ in pts]}).to_csv("geo.txt", sep=" ", index=False)
+                res = CliRunner().invoke(geo.main, ["-g", "geo.txt", "-v", "c12s"])
+                evals_g += 1
+                distinct_g += 1
+                if res.exit_code != 0:
+                    fails_g.append({"witness_id": "geotherm-large-exit", "input": {"temperatures": nTb, "pressures": nPb}, "observed": "exit %s %r" % (res.exit_code, res.exception), "expected": "a table"})
+                else:
+                    df = pandas.read_table(io.StringIO(res.stdout), sep=r"\s+")
+                    got = df["c12s"].to_numpy(dtype=float) if "c12s" in df.columns else numpy.full(len(pts), numpy.nan)
+                    want = numpy.array([arr[i, j] for i, j in pts])
+                    bad = [k for k in range(len(pts)) if not abs(got[k] - want[k]) <= 1e-5]
+                    if bad:
+                        i, j = pts[bad[0]]
+                        fails_g.append({"witness_id": "geotherm-large-node", "input": {"temperatures": nTb, "pressures": nPb, "node": [i, j], "T": float(Tb[i]), "P": float(Pb[j])},
+                                        "observed": "at grid node (row %d of %d, column %d of %d) the command returns %.6f, the table entry is %.6f (%d of %d node points differ)" % (
+                                            i, nTb, j, nPb, got[bad[0]], want[bad[0]], len(bad), len(pts)), "expected": "the table entry itself at grid nodes"})
+            finally:
+                os.chdir(cwd)
+                shutil.rmtree(tmpb, ignore_errors=True)
+            if fails_g:
+                break
     s.bounded_standin("C19.extract_nearest_row", "%d synthetic table sets (11 variables incl. names that are prefixes of other files, 5-8 temperatures x 5-8 pressures); requests at nodes, "
                       "between nodes and outside the grid, by T and by P, single and multiple variables; seed %d" % (n, s.seed), evals, distinct, fails, ["cli/extract.main", "cli/extract.load_data"])
-    s.bounded_standin("C19.geotherm_values", "%d table sets: geotherm paths through grid nodes (pressures written as floats and as integers) and between nodes under 1x/2x/4x grid refinement; "
+    s.bounded_standin("C19.geotherm_values", "%d table sets: geotherm paths through grid nodes (pressures written as floats and as integers) and between nodes under 1x/2x/4x grid refinement; a table of 1204 temperatures (thorough: also 1362 pressures, 2407 temperatures) with rough entries at nodes incl. the last rows / columns; "
                       "seed %d" % (n, s.seed), evals_g, distinct_g, fails_g, ["cli/geotherm.main", "cli/geotherm.fit_data", "cli/geotherm.load_data"])
     s.min_obligations = 4
 
